@@ -35,9 +35,11 @@ def run_retry(cases, workers):
         time.sleep(3)
         for k, r in zip(again, batch([cases[k] for k in again], w)):
             res[k] = r
-    left = [cases[k]['id'] for k, r in enumerate(res) if 'error' in r and any(f in r['error'] for f in FLAKY)]
-    if left:
-        raise Infra(f'the scheduler could not start/stop its server threads for {left[:3]} after 5 attempts (machine overloaded?)')
+    # what still fails to start / stop its server threads is an infrastructure casualty: skipped (SchedProp.skip_case
+    # counts them and turns more than 25 into an infrastructure failure), never a verdict
+    for k, r in enumerate(res):
+        if 'error' in r and any(f in r['error'] for f in FLAKY):
+            res[k] = dict(r, stage='infra')
     return res
 
 
@@ -220,7 +222,7 @@ class C20(SchedProp):
     gen_opts: dict = {}
     pair_opts = {'noise': 0.0, 'p_suicide': 0.0}
     # (random kill-plan cases, base workflows, kill points per base workflow [None = all], bases with statement-level kill points)
-    sizes = {'quick': (16, 4, 8, 2), 'thorough': (240, 10, None, 3)}
+    sizes = {'quick': (16, 4, 8, 2), 'thorough': (200, 8, None, 2)}
 
     def setup(self):
         pass
